@@ -271,6 +271,10 @@ def check_C02(chk):
     def plan_by_exec(xi):
         cfg, g = plans[xi]
         return ([f"reset id=x{xi}"] + g) if (g and cfg == 'prod') else None
+    # the repository's own KAT program, traced: every call it makes is judged by TLC (not only its final comparison)
+    kx = kat_program_traces(chk, ['TinyJAMBU-128', 'TinyJAMBU-192', 'TinyJAMBU-256'], 1.0 if chk.thorough else 0.03)
+    execs += kx
+    plans += [('kat', None)] * len(kx)
     judge(chk, exe, execs, plan_by_exec)
     chk.cov['plan_shapes'] = len(lines)
     for ev in execs[0][1:4]:
@@ -279,7 +283,9 @@ def check_C02(chk):
         rule="every Enc event (shape space of C01 with many keys/nonces, every single-bit key and nonce position, high-bit data, "
              "lengths to 1027/4099) validated by TLC against the bit-serial TinyJAMBU v2 specification, itself anchored on the "
              "NIST KAT vectors; the plan is executed on every build configuration (gcc/clang, -O0..-O3, shared and static) and "
-             "executions whose events are byte-identical to an earlier build's are judged once",
+             "executions whose events are byte-identical to an earlier build's are judged once; the repository's own kat "
+             "program is rebuilt against a recording shim and a seeded sample (thorough: all) of the calls it makes is "
+             "validated by TLC as well",
         assumptions=["the stored KAT vectors (spec/anchors, copied from the pinned test/kat files) are the NIST/reference answers",
                      "TLC evaluates concrete inputs: the input space is sampled, not exhausted"])
 
@@ -524,12 +530,15 @@ def check_C09(chk):
                 g.append(enc_line(f"f{fi}-{mode}-{mi}", mode, dict(v=f['v'], alias=mi % 2), dict(d, ad=ad, m=m), keep=1))
             groups.append(g)
     execs, _ = run_groups(chk, exe, groups)
+    kx = kat_program_traces(chk, ['TinyJAMBU-128-SIV', 'TinyJAMBU-192-SIV', 'TinyJAMBU-256-SIV'], 1.0 if chk.thorough else 0.03)
+    execs += kx
+    groups += [[] for _ in kx]
     # vacuity: the AEAD control group must actually contain pairs to which the leak relation applies
     ctl = sum(1 for ex in execs for e in ex if e.get('e') == 'Enc' and e.get('mode') == 'aead' and len(e['m']) >= 4)
     if ctl < 4:
         raise MachineryError("vacuous: AEAD control group of C09 is empty")
     chk.cov['aead_control_events'] = ctl
-    judge(chk, exe, execs, lambda xi: [f"reset id=x{xi}"] + groups[xi],
+    judge(chk, exe, execs, lambda xi: ([f"reset id=x{xi}"] + groups[xi]) if groups[xi] else None,
           cost=lambda e: steps_cost(e) + 200 * 30)
     for ev in execs[0][1:3]:
         chk.sample(ev)
@@ -540,3 +549,56 @@ def check_C09(chk):
              "determinism, distinct tags, and (bodies >= 8 bytes) XOR of bodies /= XOR of plaintexts; an AEAD control group "
              "must show the leak the SIV rule excludes",
         assumptions=["relational rule applied to common prefixes >= 8 bytes (coincidence 2^-64 per pair)"])
+
+
+# ----------------------------------------------------------------------------- the repository's own test programs, traced
+KAT_ALGOS = {'TinyJAMBU-128': 'TinyJAMBU-128.txt', 'TinyJAMBU-192': 'TinyJAMBU-192.txt', 'TinyJAMBU-256': 'TinyJAMBU-256.txt',
+             'TinyJAMBU-128-SIV': 'TinyJAMBU-128-SIV.txt', 'TinyJAMBU-192-SIV': 'TinyJAMBU-192-SIV.txt',
+             'TinyJAMBU-256-SIV': 'TinyJAMBU-256-SIV.txt', 'TinyJAMBU-Hash': 'TinyJAMBU-HASH.txt', 'TinyJAMBU-HMAC': 'TinyJAMBU-HMAC.txt'}
+
+
+def kat_program_traces(chk, algos, fraction):
+    """Build test/kat/kat from the working tree against a recording shim, run it as ctest does, and return the
+    recorded executions (a seeded sample of `fraction` of them) in the trace format of TV_Cipher / TV_Hash."""
+    od, objs = build_lib(chk.wd, 'prod')
+    kd = os.path.join(REPO, 'test', 'kat')
+    srcs = ' '.join(os.path.join(kd, f) for f in ('algorithms.c', 'internal-blake2s.c', 'internal-chachapoly.c', 'kat.c', 'timing.c'))
+    r = Rng(chk.seed ^ 0x4A7)
+    execs = []
+    for algo in algos:
+        if 'HMAC' in algo:
+            defs, wraps = '-DKATSHIM_HMAC', ['tinyjambu_hmac', 'tinyjambu_hmac_init', 'tinyjambu_hmac_update', 'tinyjambu_hmac_finalize']
+        elif 'Hash' in algo:
+            defs, wraps = '-DKATSHIM_HASH', ['tinyjambu_hash', 'tinyjambu_hash_init', 'tinyjambu_hash_update', 'tinyjambu_hash_finalize']
+        else:
+            defs = '-DKATSHIM_CIPHERS'
+            wraps = [f'tinyjambu_{v}_{m}_{d}' for v in (128, 192, 256) for m in ('aead', 'siv') for d in ('encrypt', 'decrypt')]
+        exe = os.path.join(od, 'kat-' + ('hmac' if 'HMAC' in algo else 'hash' if 'Hash' in algo else 'cipher'))
+        if not os.path.exists(exe):
+            sh(f"gcc -O2 -w {defs} -I{REPO}/src -I{od} -I{kd} {srcs} {VERIF}/harness/katshim.c {' '.join(objs)} "
+               f"{' '.join('-Wl,--wrap=' + w for w in wraps)} -lrt -o {exe}", check=True)
+        log = os.path.join(chk.wd, f'katlog-{algo}.ndjson')
+        env = dict(os.environ); env['TJ_KATLOG'] = log
+        p = subprocess.run(f"{exe} {algo} - < {kd}/{KAT_ALGOS[algo]}", shell=True, env=env, stdout=subprocess.PIPE, stderr=subprocess.STDOUT,
+                           text=True, timeout=600)
+        evs = [json.loads(x) for x in open(log)] if os.path.exists(log) else []
+        if p.returncode != 0 or not evs:
+            raise MachineryError(f"the repository's kat program failed for {algo} (rc {p.returncode}):\n{p.stdout[-800:]}")
+        for e in evs:
+            e['id'] = f"{algo}:{e['id']}"
+        # group: stateless events singly; streamed object histories from init to finalize
+        units, cur = [], {}
+        for e in evs:
+            if e['e'] in ('HInit', 'HmInit'):
+                cur[e['obj']] = [e]
+            elif e['e'] in ('HUpdate', 'HmUpdate') and e['obj'] in cur:
+                cur[e['obj']].append(e)
+            elif e['e'] in ('HFinal', 'HmFinal') and e['obj'] in cur:
+                units.append(cur.pop(e['obj']) + [e])
+            else:
+                units.append([e])
+        chk.cov.setdefault('kat_program_events', {})[algo] = len(evs)
+        keep = units if fraction >= 1 else [u for u in units if r.r.random() < fraction]
+        for i in range(0, len(keep), 30):
+            execs.append([{"e": "Reset", "id": f"{algo}-x{i}"}] + [e for u in keep[i:i + 30] for e in u])
+    return execs
